@@ -485,6 +485,7 @@ func (in *Interp) evalCall(x *ast.CallExpr, st *State) []evalRes {
 	if tv, ok := in.info.Types[x.Fun]; ok && tv.IsType() {
 		var out []evalRes
 		for _, r := range in.eval(x.Args[0], st) {
+			in.scratchConsume(x.Args[0], r.st)
 			v := vTop
 			switch r.v.K {
 			case kConst:
